@@ -91,6 +91,27 @@ func walk[T any](l fp.List[T]) []T {
 	return out
 }
 
+// tailFirst reads the first n cells of l by following Tail() n times before any head or emptiness is
+// asked for, then the heads from the last cell to the first. n is the length the reference predicts, so
+// every visited cell must exist; a non-empty remainder is reported as an extra -999999 element.
+func tailFirst[T any](l fp.List[T], n int) []T {
+	cells := []fp.List[T]{l}
+	for i := 0; i < n; i++ {
+		cells = append(cells, cells[i].Tail())
+	}
+	out := make([]T, n)
+	for i := n - 1; i >= 0; i-- {
+		out[i] = cells[i].Head()
+	}
+	if cells[n].NonEmpty() {
+		var extra any = -999999
+		if v, ok := extra.(T); ok {
+			out = append(out, v)
+		}
+	}
+	return out
+}
+
 // consume drains an iterator with a drawn demand pattern: before element j it
 // calls HasNext pat[j mod len] times (0 = call Next directly, used only while
 // the reference says an element exists). After the end HasNext is asked again.
@@ -330,18 +351,26 @@ func combIt(t *testing.T, fn string, u use, what string, lib func(e *env) fp.Ite
 func combLi(t *testing.T, fn string, u use, what string, lib func(e *env) fp.List[int], ref func(e *env) []int) {
 	t.Helper()
 	sig := "C12|" + fn + "|ref"
-	kit.Check(t, fn+"/ref", ruleBase+"The returned list is read through NonEmpty/Head/Tail and again through ToSeq. "+what, termOpt, func(rt *rapid.T, rec *kit.Rec) {
+	kit.Check(t, fn+"/ref", ruleBase+"The returned list is read with a drawn demand pattern (NonEmpty/Head/Tail walk, or Tail() followed as far as the reference reaches before any head is asked for and the heads then read backwards) and again through ToSeq. "+what, termOpt, func(rt *rapid.T, rec *kit.Rec) {
 		e := drawEnv(rt, u)
 		rec.Case(e.size() >= 2 || (u&(uXS|uYS|uZS) == 0), e.desc)
 		want := ref(e)
+		// demand pattern of the first reading: 0 = NonEmpty/Head/Tail walk; 1 = Tail first: follow Tail()
+		// as many times as the reference has elements WITHOUT asking any cell for its head or emptiness,
+		// then read the heads, the last cell first, and only then ask the final cell whether it is empty
+		mode := rapid.IntRange(0, 2).Draw(rt, "listDemand")
 		var got, got2 []int
 		rec.Guard(rt, sig, func() {
 			l := lib(e)
-			got = walk(l)
+			if mode == 1 {
+				got = tailFirst(l, len(want))
+			} else {
+				got = walk(l)
+			}
 			got2 = l.ToSeq()
 		})
 		if gs, ws := show(got), show(want); gs != ws {
-			rec.Failf(rt, sig, "%s: library list = %s, slice reference %s; inputs: %s", fn, gs, ws, e.desc)
+			rec.Failf(rt, sig, "%s: library list (demand pattern %d) = %s, slice reference %s (-999999: cells left after the reference's last element); inputs: %s", fn, mode, gs, ws, e.desc)
 		}
 		if gs, ws := show(got2), show(want); gs != ws {
 			rec.Failf(rt, sig, "%s: second traversal (ToSeq) = %s, slice reference %s; inputs: %s", fn, gs, ws, e.desc)
